@@ -30,7 +30,7 @@ LEVEL = "model_checking"
 NAN = float("nan")
 STYLES = ["minimal", "full", "doubled", "tight", "props"]
 ROWS = [(0.25, 0.75), (0.5, 0.125), (0.75, 0.5), (NAN, 0.25), (0.375, NAN)]
-WEIGHTS = [None, "0.500", "0.250"]
+WEIGHTS = [None, "0.500", "0.250", "0.9995", "1.0005"]  # the last two are within the comparison tolerance of 1
 
 TERMS = {
     "a": {"t": ("Triangle", [0.0, 0.5, 1.0]), "u": ("Ramp", [0.0, 1.0])},
@@ -199,6 +199,23 @@ def run_tree(acc: Acc, ctx: Ctx, n_leaves: int, tree, pairs) -> None:
                                 f"{text!r} under {conj}/{disj} at {case['row']} = {g}, grammar value {want}")
                 elif not np.array_equal(np.asarray(rule.activation_degree, dtype=float), np.asarray(got, dtype=float), equal_nan=True):
                     acc.violate("stored-degree", {}, case, g, str(rule.activation_degree), "activation_degree not stored")
+    # the same value through RuleBlock.activate under every activation method (operators taken from the block)
+    style, text, rule = rules[0]
+    conj, disj = pairs[0]
+    block = fl.RuleBlock("rb", conjunction=ctx.norms[conj], disjunction=ctx.norms[disj], implication=fl.Minimum(), rules=[rule])
+    ctx.a.value, ctx.b.value = ROWS[0]
+    want0 = evaluate(tree, ROWS[0], conj, disj)
+    keep = list(engine.output_variables[0].fuzzy.terms)
+    for method in (fl.General(), fl.First(1, 0.0), fl.Last(1, 0.0), fl.Highest(1), fl.Lowest(1), fl.Threshold(">=", 0.0)):
+        block.activation = method
+        block.activate()
+        del engine.output_variables[0].fuzzy.terms[len(keep):]
+        acc.transitions += 1
+        got0 = float(rule.activation_degree)
+        if not close(got0, want0, 1e-12, 1e-9):
+            acc.violate("value-through-block", {"method": type(method).__name__}, {"antecedent": text, "style": style, "postfix": want_postfix,
+                                                                                   "conjunction": conj, "disjunction": disj, "row": list(ROWS[0])},
+                        want0, got0, f"{text!r} activated by {type(method).__name__} with {conj}/{disj}: {got0}, grammar value {want0}")
     # rule weights (first rendering, first operator pair)
     style, text, _ = rules[0]
     conj, disj = pairs[0]
